@@ -56,6 +56,9 @@ const (
 )
 
 type c05World struct {
+	// extra header lines added to every authenticating request; only: restrict authedWS to one scheme
+	extra []string
+	only  string
 	cfg   c05Config
 	gw    *GwProc
 	auth  *AuthService
@@ -377,7 +380,7 @@ func (w *c05World) askHost(conn net.Conn, br *bufio.Reader, ip string) string {
 func c05(env *Env, rep *Report) {
 	cfgs := c05Configs()
 	inputs := c05Inputs()
-	rep.Rule = fmt.Sprintf("the real rdpgw binary started once per startable authentication subset (%d configurations; subsets with local run with TLS) with a scripted authentication service (password table in place of PAM, the real NTLM verifier) behind the unix socket; against each: methods {websocket upgrade, legacy RDG_OUT_DATA, RDG_IN_DATA, GET, POST, FOO} x %d Authorization header shapes (absent, empty, bare / truncated scheme words, Basic good / wrong password / other user's password / unknown user / empty parts / not base64 / no colon / case variants / doubled blank, good Basic credentials whose base64 text contains NTLM or Negotiate, NTLM and Negotiate garbage / type 3 without type 1 / 16-byte type 1, Bearer, Digest, two header lines); Kerberos: a ticket without and with an Active Directory PAC (gokrb5 test vectors: the tunnel runs under the confirmed account name, not the directory's display name), SPNEGO tokens with a valid ticket, a ticket under another service key, an expired and a not-yet-valid ticket; NTLM histories: type 1 + type 3 on one connection (NTLM and Negotiate scheme words), on two connections, type 3 twice, wrong password, unknown user. "+
+	rep.Rule = fmt.Sprintf("the real rdpgw binary started once per startable authentication subset (%d configurations; subsets with local run with TLS) with a scripted authentication service (password table in place of PAM, the real NTLM verifier) behind the unix socket; against each: methods {websocket upgrade, legacy RDG_OUT_DATA, RDG_IN_DATA, GET, POST, FOO} x %d Authorization header shapes (absent, empty, bare / truncated scheme words, Basic good / wrong password / other user's password / unknown user / empty parts / not base64 / no colon / case variants / doubled blank, good Basic credentials whose base64 text contains NTLM or Negotiate, NTLM and Negotiate garbage / type 3 without type 1 / 16-byte type 1, Bearer, Digest, two header lines); Kerberos: a ticket without and with an Active Directory PAC (gokrb5 test vectors: the tunnel runs under the confirmed account name, not the directory's display name), SPNEGO tokens with a valid ticket, a ticket under another service key, an expired and a not-yet-valid ticket; the same credentials accompanied by headers in which the client announces another user (RDG-User-Id in three encodings, reverse-proxy remote-user headers): the tunnel still carries the confirmed user; in configurations with OpenID next to other schemes the whole input list again together with the session cookie of a completed OpenID login (real callback) of the same and of another user; NTLM histories: type 1 + type 3 on one connection (NTLM and Negotiate scheme words), on two connections, type 3 twice, wrong password, unknown user. "+
 		"Oracle: no Authorization => 401 with exactly one WWW-Authenticate per enabled scheme; the handler (101 / legacy 200 accept) is reached iff credentials of an enabled scheme were confirmed; the tunnel then carries the confirmed user (observed through which loopback backend the channel reaches); openid alone => open; no panic in the gateway log, process alive. distinct_nontrivial = distinct (configuration, method, input) cases.", len(cfgs), len(inputs)+2)
 	rep.Assumptions = append(rep.Assumptions, "PAM is replaced by a password table (the property is about the gateway's use of the backend's answer)", "Kerberos tickets are forged with the keytab the harness generated for the gateway (the gateway's verification path is real, the KDC is not); wrong-case scheme words and requests with two Authorization lines are unspecified",
 		"real sockets: every read waits up to 10 s; a timeout is an infrastructure error, not a verdict")
@@ -561,6 +564,8 @@ func c05(env *Env, rep *Report) {
 		}
 		distinct += w.kerberos(viol, rep)
 		distinct += w.otherHost(viol, rep)
+		distinct += w.decoyNames(viol, rep)
+		distinct += w.withSession(viol, rep, ins)
 		// NTLM: after a completed exchange (on a plain GET, which leaves the connection open) a second
 		// authenticate message on the same connection names another user with the first user's proof
 		if cfg.has("ntlm") {
@@ -590,7 +595,7 @@ func (w *c05World) authedWS() (net.Conn, *bufio.Reader, string) {
 			return nil, nil, false
 		}
 		c.SetDeadline(time.Now().Add(15 * time.Second))
-		raw, _ := methodRequest("ws", []string{hdr})
+		raw, _ := methodRequest("ws", append([]string{hdr}, w.extra...))
 		c.Write([]byte(raw))
 		br := bufio.NewReader(c)
 		if r := ReadResponse(br); r.Status == 101 {
@@ -599,12 +604,12 @@ func (w *c05World) authedWS() (net.Conn, *bufio.Reader, string) {
 		c.Close()
 		return nil, nil, false
 	}
-	if w.cfg.has("local") {
+	if w.cfg.has("local") && (w.only == "" || w.only == "basic") {
 		if c, br, ok := try(basicHdr(userA, passA)); ok {
 			return c, br, "basic"
 		}
 	}
-	if w.cfg.has("kerberos") {
+	if w.cfg.has("kerberos") && (w.only == "" || w.only == "kerberos") {
 		now := time.Now().UTC()
 		if hdr, err := krbNegotiate(userA, gwKeytab(), now.Add(-time.Minute), now.Add(time.Hour)); err == nil {
 			if c, br, ok := try(hdr); ok {
@@ -612,19 +617,19 @@ func (w *c05World) authedWS() (net.Conn, *bufio.Reader, string) {
 			}
 		}
 	}
-	if w.cfg.has("ntlm") {
+	if w.cfg.has("ntlm") && (w.only == "" || w.only == "ntlm") {
 		c, err := w.gw.Dial()
 		if err == nil {
 			c.SetDeadline(time.Now().Add(15 * time.Second))
 			br := bufio.NewReader(c)
-			raw, _ := methodRequest("ws", []string{"Authorization: NTLM " + base64.StdEncoding.EncodeToString(ntlmc.Negotiate())})
+			raw, _ := methodRequest("ws", append([]string{"Authorization: NTLM " + base64.StdEncoding.EncodeToString(ntlmc.Negotiate())}, w.extra...))
 			c.Write([]byte(raw))
 			r := ReadResponse(br)
 			for _, v := range r.Header.Values("Www-Authenticate") {
 				if strings.HasPrefix(v, "NTLM ") {
 					if b, err := base64.StdEncoding.DecodeString(strings.TrimPrefix(v, "NTLM ")); err == nil {
 						if ch, err := ntlmc.ParseChallenge(b); err == nil {
-							raw, _ = methodRequest("ws", []string{"Authorization: NTLM " + base64.StdEncoding.EncodeToString(ntlmc.Authenticate(ntlmc.AuthParams{User: userA, Password: passA, ServerChallenge: ch.ServerChallenge, TargetInfo: ch.TargetInfo}))})
+							raw, _ = methodRequest("ws", append([]string{"Authorization: NTLM " + base64.StdEncoding.EncodeToString(ntlmc.Authenticate(ntlmc.AuthParams{User: userA, Password: passA, ServerChallenge: ch.ServerChallenge, TargetInfo: ch.TargetInfo}))}, w.extra...))
 							c.Write([]byte(raw))
 							if r2 := ReadResponse(br); r2.Status == 101 {
 								return c, br, "ntlm"
@@ -800,6 +805,108 @@ func (w *c05World) basicInterleavings(viol func(kind, detail string), rep *Repor
 					}
 				}
 				conns[i].Close()
+			}
+		}
+	}
+	return n
+}
+
+func utf16le64(s string) string {
+	var b []byte
+	for _, r := range s {
+		b = append(b, byte(r), byte(r>>8))
+	}
+	return base64.StdEncoding.EncodeToString(b)
+}
+
+// decoyNames: the authenticating request also carries headers in which the client announces another user (the
+// user-id header Microsoft clients send, and the header names reverse proxies use for a remote user). The
+// tunnel carries the user the backend confirmed: that user's host is reached, the announced user's host is not.
+func (w *c05World) decoyNames(viol func(kind, detail string), rep *Report) int {
+	if w.cfg.has("openid") {
+		return 0
+	}
+	n := 0
+	sets := [][]string{
+		{"RDG-User-Id: " + utf16le64(userB)},
+		{"RDG-User-Id: " + base64.StdEncoding.EncodeToString([]byte(userB))},
+		{"RDG-User-Id: " + userB},
+		{"X-Remote-User: " + userB, "Remote-User: " + userB, "X-Forwarded-User: " + userB},
+		{"X-Authenticated-User: " + userB, "X-User: " + userB, "X-Preferred-Username: " + userB, "From: " + userB},
+		{"RDG-Auth-Scheme: Basic", "RDG-User-Id: " + utf16le64(userB), "RDG-Correlation-Id: {00000000-0000-0000-0000-000000000001}"},
+	}
+	defer func() { w.extra, w.only = nil, "" }()
+	for _, scheme := range []string{"basic", "ntlm", "kerberos"} {
+		if (scheme == "basic" && !w.cfg.has("local")) || (scheme != "basic" && !w.cfg.has(scheme)) {
+			continue
+		}
+		for si, set := range sets {
+			for _, target := range []string{userA, userB} {
+				w.extra, w.only = set, scheme
+				c, br, _ := w.authedWS()
+				n++
+				rep.add("executions", 1)
+				if c == nil {
+					viol("confirmed-credentials-do-not-reach-handler/with-announced-user-headers/"+scheme, fmt.Sprintf("right credentials of %s plus headers %q", userA, set))
+					break
+				}
+				before := w.hits[userB]
+				got := w.askHost(c, br, target)
+				c.Close()
+				time.Sleep(20 * time.Millisecond)
+				rep.outcome(fmt.Sprintf("%s decoy set=%d scheme=%s target=%s -> %s", w.cfg, si, scheme, target, got))
+				what := fmt.Sprintf("%s authenticated with %s, the request also carries %q; asking for the host of %s: %s", userA, scheme, set, target, got)
+				if target == userA && got != userA {
+					viol("tunnel-does-not-carry-confirmed-user/announced-user-headers/"+scheme, what)
+				}
+				if target == userB && (got == userB || w.hits[userB] != before) {
+					viol("tunnel-carries-a-user-the-client-announced/"+scheme, what)
+				}
+			}
+		}
+	}
+	return n
+}
+
+// withSession: configurations with OpenID next to other schemes. A browser session that completed the OpenID
+// login (real callback, real session cookie) accompanies the request: the cookie is no credential of the
+// gateway endpoint, every input is judged as without it.
+func (w *c05World) withSession(viol func(kind, detail string), rep *Report, ins []c05Input) int {
+	if !w.cfg.has("openid") || len(w.cfg.Auth) < 2 {
+		return 0
+	}
+	n := 0
+	for _, who := range []string{userA, "mallory"} {
+		cl := newGwClient(w.gw)
+		if _, why := cl.login(LoopbackIdP(), who); why != "" {
+			rep.capf("C05: OpenID login of %s on %s did not complete (%s): session cases skipped", who, w.cfg, why)
+			continue
+		}
+		var cks []string
+		for k, v := range cl.cookies {
+			cks = append(cks, k+"="+v)
+		}
+		sort.Strings(cks)
+		cookie := "Cookie: " + strings.Join(cks, "; ")
+		for _, m := range []string{"ws", "legacy-out"} {
+			for _, in := range ins {
+				n++
+				rep.add("executions", 1)
+				r := w.request(m, append(append([]string{}, in.Headers...), cookie))
+				rep.outcome(fmt.Sprintf("%s session-of=%s %s %s status=%d reached=%v", w.cfg, who, m, in.Kind, r.Status, r.Reached))
+				what := fmt.Sprintf("config=%s method=%s input=%s together with the session cookie of a completed OpenID login of %s: status %d reached=%v", w.cfg, m, in.Name, who, r.Status, r.Reached)
+				switch {
+				case in.Kind == "absent" || in.Kind == "bad":
+					if r.Reached {
+						viol("handler-reached-with-unconfirmed-credentials/with-openid-session/"+in.Name, what)
+					}
+				case in.Kind == "good-basic-a" || in.Kind == "good-basic":
+					if w.cfg.has("local") && !r.Reached {
+						viol("confirmed-basic-credentials-do-not-reach-handler/with-openid-session", what)
+					} else if !w.cfg.has("local") && r.Reached {
+						viol("disabled-scheme-reaches-handler/basic/with-openid-session", what)
+					}
+				}
 			}
 		}
 	}
